@@ -21,7 +21,7 @@ TRUSTED = ['interposition wrappers on Deadline and z3.Optimize.check (vf/instrum
 FLOOR = {'quick': 300, 'thorough': 3000}
 BUDGET = {'quick': 110, 'thorough': 1800}
 N = {'quick': 450, 'thorough': 6000}
-REQUIRED = {'quick': {'fault_runs_D': 300, 'fault_runs_A': 150, 'fault_runs_B': 150, 'fault_runs_H': 60, 'parallel_fault_runs': 40},
+REQUIRED = {'quick': {'fault_runs_D': 300, 'fault_runs_A': 80, 'fault_runs_B': 80, 'fault_runs_H': 40, 'parallel_fault_runs': 40},
             'thorough': {'fault_runs_D': 3000, 'fault_runs_A': 1500, 'fault_runs_B': 1500, 'fault_runs_H': 600, 'parallel_fault_runs': 400}}
 RECYCLE = 40
 BUDGETS = [dict(total_timeout=1000), dict(preprocessing_timeout=1000), dict(inference_timeout=1000),
